@@ -1,4 +1,4 @@
 SPECIFICATION Spec
 CONSTANTS Depths = {1,2,3,4,5}
-INVARIANTS RelClosed RelSaturated FourPerType
+INVARIANTS Locality LocalClosed RelClosed RelSaturated FourPerType
 CHECK_DEADLOCK FALSE
